@@ -144,6 +144,17 @@ def c01_curated():
         rule(H("r", x, y), Cl("foo", x, y), Cl("bar", y, y)),
         rule(H("r2", x, y), Cl("bar", y, y), Cl("foo", x, y)),
         rule(H("foo", y, x), Cl("r", x, y), Cl("foo", y, y))]))
+    # two clauses of one rule each carrying an expression argument over their own variable (each is desugared
+    # to a fresh variable + condition; the fresh names must differ)
+    P.append(Program("two_expr_clauses", [R("step", I, I), R("link", I, I), R("chain", I, I)], [
+        rule(H("chain", x, y), Cl("step", x, Bin("%", Bin("+", x, C(1)), C(3))), Cl("step", y, Bin("%", Bin("+", y, C(1)), C(3))), Cl("link", x, y)),
+        rule(H("link", y, x), Cl("chain", x, y), Cl("step", Bin("%", Bin("+", y, C(2)), C(3)), y))]))
+    # a three-clause rule over two different relations of the same SCC (the delta x delta combination of the
+    # first variant is the only one that joins a new fact of one with a new fact of the other)
+    P.append(Program("three_clause_two_dyn", [R("hired", I), R("senior", I), R("referral", I, I, I), R("employee", I), R("mentor", I)], [
+        rule(H("employee", x), Cl("hired", x)),
+        rule(H("mentor", y), Cl("employee", y), Cl("senior", y)),
+        rule(H("employee", z_), Cl("employee", x), Cl("mentor", y), Cl("referral", x, y, z_))]))
     P.append(Program("arity3", [R("t", I, I, I), R("s", I, I), R("u", I, I, I)], [
         rule(H("u", x, y, z_), Cl("t", x, y, z_)),
         rule(H("u", x, z_, y), Cl("u", x, y, z_), Cl("s", y, z_)),
@@ -288,10 +299,38 @@ def c03_curated():
         rule(H("la", x, y), Cl("s", x, y)),
         rule(H("lb", x, v_), Cl("la", x, v_)),
         rule(H("la", x, Call("min", Bin("+", v_, C(1)), C(3))), Cl("lb", y, v_), Cl("e", y, x))]))
+    # ?patterns in two different clauses of one rule (path doubling), and the same with a third clause
+    P.append(Program("lat_two_patterns", [R("edge", I, I, I), R("sp", I, I, DI, lattice=True)], [
+        rule(H("sp", x, y, Ctor("Dual", w)), Cl("edge", x, y, w)),
+        rule(H("sp", x, z_, Ctor("Dual", Bin("+", a, b))), Cl("sp", x, y, Pat(PC("Dual", PV("a")))), Cl("sp", y, z_, Pat(PC("Dual", PV("b")))))]))
+    P.append(Program("lat_via_hubs", [R("edge", I, I, I), R("hub", I), R("sp", I, I, DI, lattice=True)], [
+        rule(H("sp", x, y, Ctor("Dual", w)), Cl("edge", x, y, w)),
+        rule(H("sp", x, z_, Ctor("Dual", Bin("+", a, b))), Cl("sp", x, y, Pat(PC("Dual", PV("a")))), Cl("sp", y, z_, Pat(PC("Dual", PV("b")))), Cl("hub", y))]))
+    # two clauses over one lattice of the stratum behind a leading input clause (not a simple join)
+    P.append(Program("lat_upper_bound", [R("init", I, I), R("add", I, I), R("hi", I, I, lattice=True)], [
+        rule(H("hi", x, v_), Cl("init", x, v_)),
+        rule(H("hi", z_, Call("min", Bin("+", a, b), C(2))), Cl("add", z_, x), Cl("hi", x, a), Cl("hi", z_, b))]))
     P.append(Program("lat_nokey", [R("s", I), R("mx", I, lattice=True), R("mn", DI, lattice=True), R("both", I, I)], [
         rule(H("mx", x), Cl("s", x)),
         rule(H("mn", Ctor("Dual", x)), Cl("s", x)),
         rule(H("both", a, b), Cl("mx", a), Cl("mn", Pat(PC("Dual", PV("b")))))]))
+    return P
+
+
+def c13_extra():
+    """programs used only by the C13 re-run scenario (the set of relations must not change on a second run()
+    whatever the program does with lattice values)"""
+    P = []
+    v_ = V("v")
+    # a plain body clause over a derived lattice with every column bound (reads the lattice's all-columns index)
+    P.append(Program("lat_all_columns_bound", [R("s", I, I), R("query", I, I), R("dist", I, I, lattice=True), R("ok", I)], [
+        rule(H("dist", x, v_), Cl("s", x, v_)),
+        rule(H("ok", x), Cl("query", x, v_), Cl("dist", x, v_))]))
+    # the same read inside the lattice's own stratum (delta / total+delta variants of the all-columns index)
+    P.append(Program("lat_all_columns_bound_rec", [R("start", I, I), R("hop", I, I, I), R("lvl", I, I, lattice=True), R("seen", I)], [
+        rule(H("lvl", x, v_), Cl("start", x, v_)),
+        rule(H("seen", y), Cl("hop", x, y, v_), Cl("lvl", x, v_)),
+        rule(H("lvl", y, C(1)), Cl("seen", y))]))
     return P
 
 
@@ -314,6 +353,15 @@ def c04_curated():
         rule(H("total", n), Agg(PV("n"), "count", [], "e", [_, _])),
         rule(H("top", m_), Agg(PV("m"), "max", ["y"], "e", [_, y])),
         rule(H("has_none", C(1)), Neg("e", [_, _]))]))
+    # rules whose body has no positive clause (aggregate / negation only), written *above* the rules and the
+    # fact that produce what they read; the producers take part in no other dependency
+    P.append(Program("agg_only_before_producer", [R("raw", I), R("valid", I), R("n_valid", "usize"), R("none_valid", I), R("hi", I), R("n_seed", "usize"), R("seed", I)], [
+        rule(H("n_valid", n), Agg(PV("n"), "count", [], "valid", [_])),
+        rule(H("none_valid", C(1)), Neg("valid", [_])),
+        rule(H("hi", m_), Agg(PV("m"), "max", ["x"], "valid", [x])),
+        rule(H("n_seed", n), For(PV("k"), Rng(C(0), C(1))), Agg(PV("n"), "count", [], "seed", [_])),
+        rule(H("valid", x), Cl("raw", x), If(Bin("!=", x, C(1)))),
+        rule(H("seed", C(2)))]))
     P.append(Program("neg_basic", [R("e", I, I), R("node", I), R("sink", I), R("noself", I), R("iso", I)], [
         rule(H("sink", x), Cl("node", x), Neg("e", [x, _])),
         rule(H("noself", x), Cl("node", x), Neg("e", [x, x])),
@@ -375,6 +423,12 @@ def c07_curated():
     P.append(Program("disj_nested", [R("a", I), R("b", I), R("c", I), R("d", I, I), R("r", I)], [
         rule(H("r", x), Disj([[Cl("a", x)], [Disj([[Cl("b", x)], [Cl("c", x), Cl("d", x, _)]]), Cl("d", _, x)]])),
         rule(H("r", y), Cl("r", x), Disj([[Cl("d", x, y)], [Cl("d", y, x), Disj([[Cl("a", y)], [Cl("b", y)]])]]))]))
+    # wildcards in the same column of two clauses over one relation (each `_` is its own fresh variable)
+    P.append(Program("wild_selfjoin", [R("edge", I, I), R("t", I, I, I), R("both_src", I, I), R("both_dst", I, I), R("mix", I, I)], [
+        rule(H("both_src", x, y), Cl("edge", x, _), Cl("edge", y, _)),
+        rule(H("both_dst", x, y), Cl("edge", _, x), Cl("edge", _, y), If(Bin("!=", x, y))),
+        rule(H("mix", x, y), Cl("t", x, _, _), Cl("t", _, y, _), Cl("t", _, _, x)),
+        rule(H("edge", x, y), Cl("mix", x, y), Cl("edge", _, y), Cl("edge", _, x))]))
     P.append(Program("pattern_args", [R("o", OI, I), R("e", I, I), R("r", I, I), R("s", I)], [
         rule(H("r", x, y), Cl("o", Pat(PC("Some", PV("x"))), y)),
         rule(H("s", x), Cl("o", Pat(PC("Some", PV("x"))), y), Cl("e", y, x), Cl("o", _, y)),
@@ -451,6 +505,21 @@ def c08_curated():
         rule(H("pair", x, y), MacroCall("has_big_succ", [x]), MacroCall("has_big_succ", [y])),
         rule(H("cap", x), Cl("e", tt, x), MacroCall("has_big_succ", [x]), If(Bin("==", tt, C(0)))),
         rule(H("cap2", x, tt), MacroCall("has_big_succ", [x]), Cl("e", x, tt))], macros=[step, big]))
+    # a macro invoked inside a call-site disjunction and again later in the same rule
+    via = MacroDef("via", [("a", "ident"), ("b", "ident")], [Cl("e", V("a"), V("mid")), Cl("e", V("mid"), V("b"))])
+    P.append(Program("macro_in_disj_then_again", [R("e", I, I), R("g", I, I), R("reach", I, I), R("reach2", I, I)], [
+        rule(H("reach", a, c), Disj([[MacroCall("via", [a, b])], [Cl("g", a, b)]]), MacroCall("via", [b, c])),
+        rule(H("reach2", a, c), MacroCall("via", [a, b]), Disj([[Cl("g", b, c)], [MacroCall("via", [b, c])]]), MacroCall("via", [c, a]))],
+        macros=[via]))
+    # a block expression in a macro body re-binding a macro-local from its own previous value, next to a
+    # call-site variable of the same spelling
+    scaled = MacroDef("scaled", [("xx", "expr"), ("out", "ident")], [
+        Let(PV("v"), Bin("%", Bin("+", V("xx"), C(1)), C(3))),
+        Let(PV("out"), Blk("v", Bin("%", Bin("+", V("v"), C(1)), C(3)), V("v")))])
+    P.append(Program("macro_block_rebind", [R("src", I), R("res", I, I), R("res2", I, I, I)], [
+        rule(H("res", V("v"), V("o")), Cl("src", V("v")), MacroCall("scaled", [V("v"), V("o")])),
+        rule(H("res2", V("v"), V("p"), V("q")), Cl("res", V("v"), V("o")), MacroCall("scaled", [V("o"), V("p")]), MacroCall("scaled", [V("p"), V("q")]))],
+        macros=[scaled]))
     # call-site variables spelled like gensym outputs / macro-local names
     loc = MacroDef("loc", [("a", "ident")], [Cl("e", V("a"), V("x_")), Cl("e", V("x_"), V("x__")), Cl("g", V("x__"), _)])
     P.append(Program("macro_name_clash", [R("e", I, I), R("g", I, I), R("r", I, I), R("r2", I, I)], [
@@ -749,3 +818,89 @@ def random_lattice_programs(seed, count, prefix="rlat"):
         p.relmap = {r.name: r for r in p.rels}
         out.append(p)
     return out
+
+
+# ------------------------------------------------------------------------------------ random programs with in-program macros
+def random_macro_programs(seed, count, prefix="rmac"):
+    """random programs built from random in-program macros.  Macro-locals are spelled like the variables of the
+    rules that invoke them (and like each other's fresh-name candidates: x / x1 / x_), macros are invoked
+    several times per rule, nested, and inside call-site disjunctions; the reference meaning is the hand
+    expansion with fresh locals per invocation (lang.expand_macros)."""
+    rng = random.Random(seed)
+    out = []
+    while len(out) < count:
+        p = _rand_macro_prog(rng, "%s%d_%d" % (prefix, seed % 1000, len(out)))
+        core = core_rules(p)
+        # keep the expansion small enough to execute symbolically in seconds
+        if len(core) <= 10 and all(sum(isinstance(it, Clause) for it in b) <= 6 for _h, b in core) \
+                and sum(1 for h, b in core if h.rel == "g" and sum(isinstance(it, Clause) for it in b) > 4) == 0:
+            out.append(p)
+    return out
+
+
+def _rand_macro_prog(rng, name):
+    LOCALS = ["x", "y", "z", "x1", "x_", "mid"]
+    rels = [R("e", I, I), R("g", I, I), R("u", I)]
+    macros = []
+    for mi in range(rng.randint(1, 3)):
+        two = rng.random() < 0.75
+        params = [("a", "ident"), ("b", "ident")] if two else [("a", "ident")]
+        locs = rng.sample(LOCALS, rng.choice([1, 1, 2]))
+        chain = ["a"] + locs + (["b"] if two else [])
+        body = [Cl(rng.choice(["e", "g"]), V(s), V(t_)) for s, t_ in zip(chain, chain[1:])]
+        r = rng.random()
+        if r < 0.25:
+            op = rng.choice(["!=", "<", "<="])
+            body.append(If(Bin(op, V(locs[0]), C(rng.randint(1, 2) if op == "<" else rng.randint(0, 2)))))
+        elif r < 0.4 and two:
+            body.append(If(Bin("!=", V("a"), V("b"))))
+        elif r < 0.55:
+            body.append(Let(PV("t"), Bin("%", Bin("+", V(locs[-1]), C(1)), C(3))))
+            body.append(Cl("u", V("t")))
+        elif r < 0.75 and macros:
+            prev = rng.choice(macros)
+            args = [V(locs[0])] + ([V(rng.choice(["a"] + locs[1:]))] if len(prev.params) > 1 else [])
+            if len(args) == 2 and args[0].n == args[1].n:
+                args[1] = V("a")
+            body.append(MacroCall(prev.name, args))
+        elif r < 0.9:
+            first = body[0]
+            other = "g" if first.rel == "e" else "e"
+            body[0] = Disj([[first], [Clause(other, list(first.args)), If(Matches(V(first.args[1].n), [0, 1]))]])
+        macros.append(MacroDef("m%d" % mi, params, body))
+    rules = []
+    POOL = ["x", "y", "z", "w"]
+    for ri in range(rng.randint(2, 4)):
+        nlink = rng.choice([1, 2, 2, 3])
+        vs = POOL[:nlink + 1]
+        rng.shuffle(vs)
+        body = []
+        for k in range(nlink):
+            s, t_ = V(vs[k]), V(vs[k + 1])
+            two_ms = [m for m in macros if len(m.params) == 2]
+            p = rng.random()
+            if two_ms and p < 0.55:
+                m = rng.choice(two_ms)
+                body.append(MacroCall(m.name, [s, t_]))
+            elif two_ms and p < 0.75 and not any(isinstance(it, Disj) for it in body):
+                m = rng.choice(two_ms)
+                alt = [MacroCall(m.name, [s, t_])]
+                cl = [Cl(rng.choice(["e", "g"]), s, t_)]
+                body.append(Disj([alt, cl] if rng.random() < 0.5 else [cl, alt]))
+            else:
+                body.append(Cl(rng.choice(["e", "g"]), s, t_))
+            one_ms = [m for m in macros if len(m.params) == 1]
+            if one_ms and rng.random() < 0.4:
+                body.append(MacroCall(rng.choice(one_ms).name, [rng.choice([s, t_])]))
+        if rng.random() < 0.3:
+            body.append(If(Bin(rng.choice(["!=", "<"]), V(vs[0]), V(vs[-1]))))
+        if not any(isinstance(it, MacroCall) or (isinstance(it, Disj)) for it in body):
+            m = rng.choice(macros)
+            body.append(MacroCall(m.name, [V(vs[-1]), V(vs[0])][:len(m.params)]))
+        if rng.random() < 0.3:
+            head = H("g", V(vs[0]), V(vs[-1]))          # recursion through the macros
+        else:
+            rels.append(R("o%d" % ri, I, I))
+            head = H("o%d" % ri, V(vs[0]), V(vs[-1]))
+        rules.append(rule(head, *body))
+    return Program(name, rels, rules, macros=macros)
